@@ -443,6 +443,8 @@ where
 
     pub(crate) fn insert_with_hash(&self, key: Arc<K>, hash: u64, value: V) {
         let (op, now) = self.base.do_insert_with_hash(key, hash, value);
+        #[cfg(mini_moka_verif)]
+        crate::verif::sched::point("insert:after_map");
         let hk = self.base.housekeeper.as_ref();
         Self::schedule_write_op(
             self.base.inner.as_ref(),
@@ -463,7 +465,11 @@ where
         Arc<K>: Borrow<Q>,
         Q: Hash + Eq + ?Sized,
     {
+        #[cfg(mini_moka_verif)]
+        crate::verif::sched::point("invalidate:before_map");
         if let Some(kv) = self.base.remove_entry(key) {
+            #[cfg(mini_moka_verif)]
+            crate::verif::sched::point("invalidate:after_map");
             let op = WriteOp::Remove(kv);
             let now = self.base.current_time_from_expiration_clock();
             let hk = self.base.housekeeper.as_ref();
@@ -585,7 +591,11 @@ where
         // - We are doing a busy-loop here. We were originally calling `ch.send(op)?`,
         //   but we got a notable performance degradation.
         loop {
+            #[cfg(mini_moka_verif)]
+            crate::verif::sched::point("wop:loop");
             BaseCache::<K, V, S>::apply_reads_writes_if_needed(inner, ch, now, housekeeper);
+            #[cfg(mini_moka_verif)]
+            crate::verif::sched::point("wop:before_send");
             match ch.try_send(op) {
                 Ok(()) => break,
                 Err(TrySendError::Full(op1)) => {
